@@ -855,37 +855,125 @@ def observe_compiled_match(sel):
     return same
 
 
+class _LoggingList(list):
+    """a list field value that logs every mutation"""
+    _log = None
+    _tag = ""
+
+    def _w(self, what):
+        if self._log is not None:
+            self._log.append("%s.%s" % (self._tag, what))
+
+
+for _m in ("__setitem__", "__delitem__", "__iadd__", "__imul__", "append", "extend", "insert", "pop", "remove", "clear", "sort", "reverse"):
+    def _mk(_m=_m):
+        def f(self, *a, **k):
+            self._w(_m)
+            return getattr(list, _m)(self, *a, **k)
+        f.__name__ = _m
+        return f
+    setattr(_LoggingList, _m, _mk())
+
+
+def _write_probe_records(log):
+    """probe records of several shapes; their list-valued fields are replaced by logging lists of the same class
+    hierarchy position (list subclass), a nested record and a grouped record included"""
+    import datetime as dt
+
+    from flow.record import GroupedRecord, RecordDescriptor
+    ts = dt.datetime(2020, 1, 1, tzinfo=dt.timezone.utc)
+    W = RecordDescriptor("probe/w", [("varint[]", "il"), ("string[]", "sl"), ("string", "s"), ("varint", "n"), ("uri", "u"),
+                                     ("path", "p"), ("bytes", "raw"), ("datetime", "ts"), ("net.ipaddress", "ip"), ("digest", "dg")])
+    V = RecordDescriptor("probe/v", [("string", "t"), ("record", "sub"), ("record[]", "subs")])
+    w1 = W(il=[2, 1], sl=["q", "x"], s="q", n=1, u="http://h/a/b", p="/tmp/q", raw=b"q", ts=ts, ip="10.0.0.1",
+           dg=("d41d8cd98f00b204e9800998ecf8427e", None, None), _generated=ts)
+    w2 = W(il=[], sl=None, s=None, n=None, _generated=ts)
+    v1 = V(t="q", sub=W(il=[1], sl=["q"], s="z", n=5, _generated=ts), subs=[W(il=[3], s="q", n=2, _generated=ts)], _generated=ts)
+    g1 = GroupedRecord("probe/g", [W(il=[1, 5], sl=["y"], s="q", n=3, _generated=ts), V(t="w", sub=None, subs=[], _generated=ts)])
+    recs = dict(w1=w1, w2=w2, v1=v1, g1=g1)
+
+    def wrap(rec, tag):
+        for t, nm in rec._desc.get_field_tuples():
+            val = object.__getattribute__(rec, nm) if nm in getattr(type(rec), "__slots__", ()) else None
+            if isinstance(val, list) and type(rec).__name__ != "GroupedRecord":
+                ll = _LoggingList(val)
+                ll._log, ll._tag = log, "%s.%s" % (tag, nm)
+                object.__setattr__(rec, nm, ll)
+                for i, x in enumerate(val):
+                    if hasattr(x, "_desc"):
+                        wrap(x, "%s.%s[%d]" % (tag, nm, i))
+            elif hasattr(val, "_desc"):
+                wrap(val, "%s.%s" % (tag, nm))
+    for k, r in recs.items():
+        if type(r).__name__ == "GroupedRecord":
+            for i, m in enumerate(r.records):
+                wrap(m, "%s[%d]" % (k, i))
+        else:
+            wrap(r, k)
+    return recs
+
+
+WRITE_BATTERY = [
+    PROBE_EXPR,
+    "field_contains(r, ['sl', 'il', 's', 't', 'u', 'p'], ['nomatch'], nocase=False) or field_equals(r, ['sl', 's'], ['nomatch']) "
+    "or field_regex(r, ['sl', 's', 't'], 'nomatch')",
+    "field_contains(r, ['s', 't', 'sl'], ['q']) or field_equals(r, ['s'], ['q']) or field_regex(r, ['s', 'u'], 'q')",
+    "field_contains(r, (f.name for f in fields('string')), ['q'], word_boundary=True)",
+    "has_field(r, 's') and name(r) == 'probe/w' and 'probe/w' in names(r)", "lower(r.s) == 'q' or upper(r.t) == 'Q'",
+    "'q' in Type.string or Type.varint > 0 or Type.uri.filename == 'b' or field_contains(r, Type.string, ['q'])",
+    "r.s in ['q'] and r.n not in [2]", "get_type(r.s) == 'string'", "any(x == 1 for x in r.il) and all(e != 'z' for e in r.sl)",
+    "any(x > 1 for x in r.il if x != 3) or 'q' in r.sl or r.il == [2, 1]", "r.sub.s == 'z' or any(x == 1 for x in r.sub.il)",
+    "r.u.filename == 'b' or r.p.name == 'q' or r.raw == b'q' or r.ip == '10.0.0.1'", "r.dg.md5 == 'd41d8cd98f00b204e9800998ecf8427e'",
+    "not r.n == 1 and (r.zz == 1 or r.s != 'q')", "1 < r.n < 3", "r.n + 1 == 2", "str(r.s) == 'q' and repr(r.n) == '1'",
+]
+
+
 def observe_record_writes(sel):
-    """Match probe records with both engines while every attribute store / delete on a record is logged."""
+    """Match logging probe records with both engines over a battery of expressions: every attribute store / delete
+    on a record (Record/GroupedRecord.__setattr__/__delattr__) and every mutation of a list-valued field is logged;
+    the deep observation of every probe record before and after must be equal.  -> list of observed writes"""
     from flow.record import base
-    P = _probe_records()
+
+    from vf import recgen
     log = []
+    recs = _write_probe_records(log)
+    del log[:]
     patched = []
     for cls in (base.Record, base.GroupedRecord):
         for nm in ("__setattr__", "__delattr__"):
-            if nm in cls.__dict__:
-                orig = cls.__dict__[nm]
-                patched.append((cls, nm, orig, True))
-            else:
-                orig = getattr(cls, nm)
-                patched.append((cls, nm, None, False))
+            own = nm in cls.__dict__
+            orig = cls.__dict__[nm] if own else getattr(cls, nm)
+            patched.append((cls, nm, orig, own))
 
             def logged(self, *a, _orig=orig, _nm=nm, _cls=cls):
                 log.append("%s.%s(%s)" % (_cls.__name__, _nm, a[0] if a else ""))
                 return _orig(self, *a)
             setattr(cls, nm, logged)
     try:
-        exprs = [PROBE_EXPR, "field_contains(r, ['s', 't'], ['q']) or field_equals(r, ['s'], ['q']) or field_regex(r, ['s'], 'q')",
-                 "has_field(r, 's') and name(r) == 'probe/a' and 'probe/a' in names(r)", "lower(r.s) == 'q' or upper(r.t) == 'Q'",
-                 "'q' in Type.string or Type.varint > 0", "r.s in ['q'] and r.n not in [2]", "get_type(r.s) == 'string'"]
-        for e in exprs:
+        def snap():
+            out = {}
+            for k, r in recs.items():
+                try:
+                    out[k] = repr(recgen.canon(recgen.obs_item(r)))
+                except Exception as e:  # noqa
+                    out[k] = "unobservable: %s" % type(e).__name__
+            return out
+        before = snap()
+        del log[:]
+        for e in WRITE_BATTERY:
             for mk in (sel.Selector, sel.CompiledSelector):
                 so = mk(e)
-                for k in ("a", "b", "a2", "g"):
-                    try:
-                        so.match(P[k])
-                    except Exception:  # noqa  (a raising selector is fine here; only stores are of interest)
-                        pass
+                for k in recs:
+                    for _ in range(2):
+                        try:
+                            so.match(recs[k])
+                        except Exception:  # noqa  (a raising selector is fine here; only writes are of interest)
+                            pass
+        writes = list(log)
+        after = snap()
+        for k in recs:
+            if before[k] != after[k]:
+                writes.append("deep observation of probe %s differs after matching" % k)
     finally:
         for cls, nm, orig, own in patched:
             if own:
@@ -893,7 +981,7 @@ def observe_record_writes(sel):
             else:
                 delattr(cls, nm)
     out = []
-    for x in log:
+    for x in writes:
         if x not in out:
             out.append(x)
     return out
@@ -1074,36 +1162,54 @@ def _compiled_match_ast(sel):
     return copied
 
 
+RECORD_PARAM_NAMES = {"r", "rec", "record"}
+RECORD_SELF_ATTRS = {"rec", "_rec", "record"}
+
+
 def record_write_sites(sel):
-    """stores in selector.py whose target is an attribute / item of something that is not the method's own `self`
-    or a local container created in the same function; calls of setattr/delattr/object.__setattr__"""
+    """Cross-check of the observed fact: stores in selector.py whose target PROVABLY is the record being matched or
+    one of its values -- the container stored into is a parameter named r/rec/record, self.rec / self._rec /
+    self.record, something read from one of those (attribute, item, getattr), or a local bound to such a thing.
+    Stores into local containers, into the matcher's / selector's own attributes and into module tables are not
+    record writes."""
     tree = ast.parse(open(sel.__file__).read())
     out = []
 
     def scan(fnode, selfname):
-        local_fresh = set()
+        params = [a.arg for a in fnode.args.args + fnode.args.kwonlyargs]
+        recnames = {p for p in params if p in RECORD_PARAM_NAMES and p != selfname}
         for n in ast.walk(fnode):
-            if isinstance(n, ast.Assign) and len(n.targets) == 1 and isinstance(n.targets[0], ast.Name):
-                v = n.value
-                fresh = isinstance(v, (ast.List, ast.Dict, ast.Set, ast.ListComp, ast.DictComp, ast.SetComp))
-                # a new container made in this function: <x>.copy(), dict(..), list(..), set(..), copy.copy(..)
-                if isinstance(v, ast.Call) and isinstance(v.func, ast.Attribute) and v.func.attr in ("copy", "deepcopy") and len(v.args) <= 1:
-                    fresh = True
-                if isinstance(v, ast.Call) and isinstance(v.func, ast.Name) and v.func.id in ("dict", "list", "set", "OrderedDict", "defaultdict"):
-                    fresh = True
-                if fresh:
-                    local_fresh.add(n.targets[0].id)
-        # a name that is also bound to something else in this function is not a local container
+            if n is not fnode and isinstance(n, (ast.FunctionDef, ast.Lambda)):
+                args = n.args
+                recnames |= {a.arg for a in args.args if a.arg in RECORD_PARAM_NAMES}
+
+        def is_rec(e):
+            """does the expression denote the record or a value reached from it?"""
+            if isinstance(e, ast.Name):
+                return e.id in recnames
+            if isinstance(e, ast.Attribute):
+                if selfname and isinstance(e.value, ast.Name) and e.value.id == selfname:
+                    return e.attr in RECORD_SELF_ATTRS
+                return is_rec(e.value)
+            if isinstance(e, ast.Subscript):
+                return is_rec(e.value)
+            if isinstance(e, ast.Call) and isinstance(e.func, ast.Name) and e.func.id == "getattr" and e.args:
+                return is_rec(e.args[0])
+            return False
+
+        # locals bound to the record / its values (two rounds for chains)
+        for _ in range(2):
+            for n in ast.walk(fnode):
+                if isinstance(n, ast.Assign) and is_rec(n.value):
+                    for t in n.targets:
+                        if isinstance(t, ast.Name):
+                            recnames.add(t.id)
+        # ... unless the name is also bound to something that is not the record (then nothing is provable)
         for n in ast.walk(fnode):
-            if isinstance(n, ast.Assign):
+            if isinstance(n, ast.Assign) and not is_rec(n.value):
                 for t in n.targets:
-                    if isinstance(t, ast.Name) and t.id in local_fresh:
-                        v = n.value
-                        ok = isinstance(v, (ast.List, ast.Dict, ast.Set, ast.ListComp, ast.DictComp, ast.SetComp)) or (
-                            isinstance(v, ast.Call) and ((isinstance(v.func, ast.Attribute) and v.func.attr in ("copy", "deepcopy"))
-                                                         or (isinstance(v.func, ast.Name) and v.func.id in ("dict", "list", "set", "OrderedDict", "defaultdict"))))
-                        if not ok:
-                            local_fresh.discard(t.id)
+                    if isinstance(t, ast.Name) and t.id in recnames and t.id not in params:
+                        recnames.discard(t.id)
         for n in ast.walk(fnode):
             tg = []
             if isinstance(n, ast.Assign):
@@ -1114,17 +1220,17 @@ def record_write_sites(sel):
                 tg = n.targets
             for t in tg:
                 for e in ast.walk(t):
-                    if isinstance(e, (ast.Attribute, ast.Subscript)) and isinstance(e.ctx, (ast.Store, ast.Del)):
-                        base = e.value
-                        while isinstance(base, (ast.Attribute, ast.Subscript)):
-                            base = base.value
-                        if isinstance(base, ast.Name) and (base.id == selfname or base.id in local_fresh):
-                            continue
+                    if isinstance(e, (ast.Attribute, ast.Subscript)) and isinstance(e.ctx, (ast.Store, ast.Del)) and is_rec(e.value):
                         out.append("line %d: %s" % (n.lineno, ast.unparse(e)))
-            if isinstance(n, ast.Name) and n.id in ("setattr", "delattr"):
-                out.append("line %d: %s" % (n.lineno, n.id))
-            if isinstance(n, ast.Attribute) and n.attr in ("__setattr__", "__delattr__", "__dict__", "__setitem__", "__delitem__"):
-                out.append("line %d: .%s" % (n.lineno, n.attr))
+            if isinstance(n, ast.Call):
+                f = n.func
+                if isinstance(f, ast.Name) and f.id in ("setattr", "delattr") and n.args and is_rec(n.args[0]):
+                    out.append("line %d: %s(%s, ..)" % (n.lineno, f.id, ast.unparse(n.args[0])))
+                if isinstance(f, ast.Attribute) and f.attr in ("__setattr__", "__delattr__", "__setitem__", "__delitem__") \
+                        and ((n.args and is_rec(n.args[0])) or is_rec(f.value)):
+                    out.append("line %d: %s" % (n.lineno, ast.unparse(f)))
+                if isinstance(f, ast.Attribute) and f.attr in MUTATORS and is_rec(f.value):
+                    out.append("line %d: %s(..)" % (n.lineno, ast.unparse(f)))
 
     for n in tree.body:
         if isinstance(n, ast.FunctionDef):
@@ -1132,11 +1238,7 @@ def record_write_sites(sel):
         elif isinstance(n, ast.ClassDef):
             for m in n.body:
                 if isinstance(m, ast.FunctionDef):
-                    # a method may store through its own receiver (first parameter); nested helpers are scanned
-                    # as part of the method
                     scan(m, m.args.args[0].arg if m.args.args else None)
-                elif isinstance(m, ast.ClassDef):
-                    raise Unsupported("nested class in selector.py line %d" % m.lineno)
     seen = []
     for o in out:
         if o not in seen:
@@ -1251,7 +1353,7 @@ def gen_filter():
     out += ("Definition matcher : matcher_facts :=\n  {| mf_selector_reuses_matcher := %s;\n     mf_init_only := %s;\n     mf_reset_fresh := %s;\n"
             "     mf_eval_reads := %s;\n     mf_eval_writes := %s;\n     mf_compiled_ns_copied := %s |}.\n\n") % (
         cbool(reuses), sl(cm["init_only"]), sl(cm["reset"]), sl(cm["reads"]), sl(cm["writes"]), cbool(copied))
-    out += "(* stores in selector.py that do not go through the method's own object or a local container *)\n"
+    out += "(* writes to a record observed while matching logging probe records (both engines, battery of expressions), and\n   stores in selector.py whose target provably is the record or one of its values (cross-check) *)\n"
     out += "Definition record_write_sites : list string := %s.\n\n" % sl(record_write_sites(sel) + ["observed: " + w for w in observe_record_writes(sel)])
     rows = make_selector_table(sel)
     out += "(* make_selector, run on every input kind x force_compiled *)\n"
